@@ -26,10 +26,11 @@ const (
 	aStopAfter        // answer the first n rounds, then nothing
 	aOnlyRetx         // in every round answer only the j-th transmission (j = 0 is the original)
 	aFailure          // answer every DWR with a failing result code
+	aLateBurst        // rounds 1..n-1 answered at once; in round n every transmission is answered, but only after the last one was sent (a burst of N+1 answers); then nothing
 	nPatterns
 )
 
-var aNames = []string{"answer-all", "stop-after-n", "answer-only-jth-transmission", "answer-with-failure"}
+var aNames = []string{"answer-all", "stop-after-n", "answer-only-jth-transmission", "answer-with-failure", "late-burst-then-silence"}
 
 // transport schedules
 const (
@@ -120,6 +121,19 @@ func runC13Client(c *ev.Case, ctx *lib.Ctx, sc c13Script) {
 				reply = txInRound == sc.j
 			case aFailure:
 				reply, rc = true, 5012
+			case aLateBurst:
+				reply = round < sc.n
+				if round == sc.n && txInRound == sc.N {
+					// the last transmission of round n is out: answer all N+1 of them, a moment later
+					answered[round] = true
+					burst := sc.N + 1
+					go func() {
+						time.Sleep(sc.R / 4)
+						for i := 0; i < burst; i++ {
+							mc.Feed(peer.DWA(h.HopByHop, h.EndToEnd, 2001))
+						}
+					}()
+				}
 			}
 			if !reply {
 				return
@@ -146,6 +160,8 @@ func runC13Client(c *ev.Case, ctx *lib.Ctx, sc c13Script) {
 		return
 	}
 	hsDone := time.Now()
+	// the peer runs a watchdog of its own: its DWR must be answered by the client's state machine
+	mc.Feed(peer.DWR(0x7e570001, 0x7e570002))
 	// horizon
 	roundMax := time.Duration(sc.N+1) * sc.R
 	H := 30 * (sc.W + roundMax)
@@ -176,6 +192,23 @@ func runC13Client(c *ev.Case, ctx *lib.Ctx, sc c13Script) {
 	}()
 	_ = start
 	desc := sc.String()
+	{
+		answeredPeer := 0
+		for _, w := range mc.Writes() {
+			msgs, _ := peer.SplitMessages(w.Data)
+			for _, m := range msgs {
+				if h := peer.Header(m); h.Code == 280 && h.Flags&0x80 == 0 && h.HopByHop == 0x7e570001 && h.EndToEnd == 0x7e570002 {
+					if rc := peer.FindU32(m, peer.ResultCode); len(rc) == 1 && rc[0] == 2001 {
+						answeredPeer++
+					}
+				}
+			}
+		}
+		if answeredPeer != 1 {
+			c.Fail(sig("peer-dwr-unanswered"), nil, nil, "the peer sent a DWR of its own right after the handshake; the client (a state machine with the watchdog enabled) wrote %d success DWAs carrying its identifiers; %s", answeredPeer, desc)
+			return
+		}
+	}
 	// group the DWRs into rounds by identity of the bytes
 	type rnd struct {
 		first, last time.Time
@@ -229,6 +262,8 @@ func runC13Client(c *ev.Case, ctx *lib.Ctx, sc c13Script) {
 		expectRoundTx = func(int) int { return min(sc.j, sc.N) + 1 }
 	case aFailure:
 		expectClose = true
+	case aLateBurst:
+		expectClose = true
 	}
 	closed := !closedAt.IsZero()
 	if expectClose != closed {
@@ -253,8 +288,12 @@ func runC13Client(c *ev.Case, ctx *lib.Ctx, sc c13Script) {
 			return
 		}
 		wantRounds := 1
-		if sc.pattern == aStopAfter {
+		if sc.pattern == aStopAfter || sc.pattern == aLateBurst {
 			wantRounds = sc.n + 1
+		}
+		if sc.pattern == aLateBurst && len(rounds) >= sc.n && rounds[sc.n-1].tx != sc.N+1 {
+			c.Fail(sig("retransmit-count"), nil, nil, "round %d (answered only after its last transmission) had %d transmissions, expected %d; %s", sc.n, rounds[sc.n-1].tx, sc.N+1, desc)
+			return
 		}
 		if len(rounds) != wantRounds {
 			c.Fail(sig("round-count"), nil, nil, "%d watchdog rounds before the close, expected %d; %s", len(rounds), wantRounds, desc)
@@ -532,6 +571,12 @@ func TestC13(t *testing.T) {
 				s.pattern = aFailure
 				scripts = append(scripts, s)
 			}
+		}
+	}
+	// late answers: every transmission of one round is answered after the last one, then silence
+	for N := 0; N <= 3; N++ {
+		for n := 1; n <= 2; n++ {
+			scripts = append(scripts, c13Script{N: N, W: 5 * time.Second, R: time.Second, pattern: aLateBurst, n: n, schedule: sImmediate})
 		}
 	}
 	// the documented defaults, with the interval fields left unset
